@@ -590,4 +590,16 @@ pub const fn inv_mod2k(&self, k: u32) -> (ret__: ConstCtOption<Self>)
 }
 //@@ end
 
+//@@ fn src/odd.rs | impl<T> Odd<T> | as_ref | body | props C08 C10 C11
+impl<T> Odd<T> {
+pub const fn as_ref(&self) -> (ret__: &T)
+//@+
+    ensures *ret__ == self.0
+//@-
+{
+        &self.0
+    }
+}
+//@@ end
+
 } // verus!
